@@ -155,6 +155,19 @@ functions as `Ref/Ed25519.lean` remains a differential tie — dalek is a depend
 section Ed25519
 open Monero.Edw
 
+/-- the constant `H` of the CURRENT SOURCE (regenerated from src/util/key.rs on every run) is Monero's second generator -/
+theorem C08_H_is_monero : Gen.pointH = Spec.Amounts.moneroH := by decide
+
+set_option maxRecDepth 100000 in
+private theorem H_decodes_ref : (Ed.decodePt Gen.pointH).isSome = true := by decide +kernel
+
+/-- … and it is the canonical encoding of a curve point: the hypothesis `decP Gen.pointH = some H` of the theorems above
+is a fact for Ed25519 (so `H.point.decompress().unwrap()` in `open_commitment` cannot panic) -/
+theorem C08_H_decodes : ∃ H : EdPoint, decPoint Gen.pointH = some H ∧ edOps.dec = decPoint := by
+  cases h : Ed.decodePt Gen.pointH with
+  | none => have := H_decodes_ref; rw [h] at this; cases this
+  | some P => exact ⟨_, decPoint_some h, rfl⟩
+
 theorem C08_ed25519_lawful : Lawful edOps ∧ RefinesEd Drv.refOps := ⟨edOps_lawful, refOps_refines_edOps⟩
 theorem C08_sender_roundtrip_ed25519 : type_of% (@C08_sender_roundtrip EdPoint _ edOps edOps_lawful) := C08_sender_roundtrip edOps_lawful
 theorem C08_opening_sound_ed25519 : type_of% (@C08_opening_sound EdPoint _ edOps edOps_lawful) := C08_opening_sound edOps_lawful
